@@ -1,7 +1,7 @@
 (* C03 - a stream has one input; foreign arrivals and departures never disturb it.
    Only property statements here; each is closed by [exact] (or a two-line proof). *)
 From Coq Require Import NArith ZArith List Bool.
-From Lal Require Import Group.GroupAdmission Group.GroupAdmissionProofs.
+From Lal Require Import Group.GroupAdmission Group.GroupAdmissionProofs Group.GroupInvariantProofs.
 Import ListNotations.
 Open Scope N_scope.
 
@@ -48,3 +48,34 @@ Theorem c03_noninterference_refuted :
     occupies x s g = false /\ ~ keeps s g (fst (fst (step pinned_tree cf st e))).
 Proof. exact foreign_event_refuted_pinned. Qed.
 Print Assumptions c03_noninterference_refuted.
+
+(* Start/stop notifications, per connection, after ANY history (events about any number of
+   streams): the notifications carrying the id of connection n are - in this order - nothing if n
+   was never seen or was refused; its start if it was admitted and is still there; its start then
+   its stop once it has gone.  RTMP/RTSP publishers get publisher start/stop, RTMP/RTSP/HTTP-FLV/
+   HTTP-TS subscribers subscriber start/stop, customize and PS publishers none.
+   ([vsess st n] = kind, stream, admitted?, gone? of connection n.) *)
+Theorem c03_notifications : forall cf h n,
+  let '(st, log) := run fixed_tree cf init_state h in
+  word log (WConn n) = conn_word (vsess st n).
+Proof. exact notifications_conn. Qed.
+Print Assumptions c03_notifications.
+
+(* F-11: on the pinned tree a refused RTSP ANNOUNCE is reported as a departed publisher *)
+Theorem c03_notifications_refuted :
+  exists cf h n, word (snd (run pinned_tree cf init_state h)) (WConn n)
+                 <> conn_word (vsess (fst (run pinned_tree cf init_state h)) n).
+Proof. exact notifications_conn_refuted_pinned. Qed.
+Print Assumptions c03_notifications_refuted.
+
+(* The stat API after any history: the publisher it lists sits in a publisher slot of that group
+   and is an admitted connection of that very stream that has not gone; every subscriber it lists
+   is in the group's subscriber set and is an admitted, not yet gone subscriber of that stream. *)
+Theorem c03_stat_attached : forall cf h s g,
+  let st := fst (run fixed_tree cf init_state h) in
+  get_group st s = Some g ->
+  (forall n, stat_pub g = Some n ->
+     exists kd, vsess st n = Some (kd, s, true, false) /\ (g_rtmp g = Some n \/ g_rtsp g = Some n \/ g_ps g = Some n)) /\
+  (forall n, In n (stat_subs g) -> exists kd k, subk_of kd = Some k /\ In (k, n) (g_subs g) /\ vsess st n = Some (kd, s, true, false)).
+Proof. exact stat_lists_attached. Qed.
+Print Assumptions c03_stat_attached.
